@@ -111,7 +111,14 @@ Violations(c) ==
                  LET r == X.json.result[i] IN
                  V(r.count = Len(r.paths), "c18.json.count", r.check, -1, r.count, Len(r.paths))
               \o V(r.check \notin DOMAIN O.det \/ r.paths = O.det[r.check].paths, "c18.json.paths", r.check, -1, r.paths,
-                   IF r.check \in DOMAIN O.det THEN O.det[r.check].paths ELSE << >>)])
+                   IF r.check \in DOMAIN O.det THEN O.det[r.check].paths ELSE << >>)
+              \* "blocks" of a path: the instructions of every block of the path, in path order (a block visited twice is
+              \* listed twice)
+              \o Cat([j \in 1..Len(r.paths) |->
+                        LET want == [k \in 1..Len(r.paths[j]) |->
+                                       IF r.paths[j][k] \in G.retained THEN BlockLines(G, r.paths[j][k]) ELSE << >>]
+                        IN V(j <= Len(r.blines) /\ r.blines[j] = want, "c18.json.blocks", r.check, j,
+                             IF j <= Len(r.blines) THEN r.blines[j] ELSE "missing", want)])])
        (* path files: exactly the path's blocks are marked *)
        \o Cat([i \in 1..Len(X.dot.paths) |->
                  LET pd == X.dot.paths[i]
